@@ -30,8 +30,16 @@ def heavy(ctx, dn, G, m):
     audit.audit_queries(ctx, dn, G, m)
 
 
+def passive_battery(ctx, dn, G, m):
+    if not m.removal:
+        heavy(ctx, dn, G, m)
+
+
 def run(ctx, dn):
     quick = ctx.tier == "quick"
+    if ctx.shard == 0:
+        from .. import passive
+        ctx.notes["passive_graphs"] = passive.run(ctx, dn, passive_battery)
     alpha = [("add", u, v, t, None if s is None else t + s)
              for (u, v) in ((0, 1), (1, 2), (1, 0)) for t in range(4) for s in (None, 1, 2)]
     for directed in (False, True):
@@ -44,6 +52,9 @@ def run(ctx, dn):
         directed = ctx.rng.random() < 0.5
         prog, fam = gen.random_program(ctx.rng, lambda: Model(directed, True), directed=directed, bulk=False,
                                        p_reject=0.15)
+        # some adds go through the bulk entry point with the documented (u, v, d) form, d carrying a stale 't'
+        prog = [("addfrom", [(op[1], op[2], {"t": [[0, 1]]} if ctx.rng.random() < 0.5 else {"w": 1})], op[3], op[4])
+                if (op[0] == "add" and op[3] is not None and ctx.rng.random() < 0.15) else op for op in prog]
         _hist._case(ctx, "RND-ACC", directed, prog, removal=False, families=fam)
         _hist.run_program(ctx, dn, prog, directed, heavy if n % 3 == 0 else light, removal=False, every=2)
         if n < 2:
